@@ -27,6 +27,10 @@ func init() {
 	register("pack", func(a []string) string {
 		return tohex(parquet.VerifBitPack(atoi(a[0]), unhex(a[1])))
 	})
+	// pack-dirty <width> <vals>: Pack into an empty destination whose spare capacity is filled with 0xff
+	register("pack-dirty", func(a []string) string {
+		return tohex(parquet.VerifBitPackDirty(atoi(a[0]), unhex(a[1]), 0xff))
+	})
 	register("unpack", func(a []string) string {
 		return tohex(parquet.VerifBitUnpack(atoi(a[0]), unhex(a[1])))
 	})
